@@ -264,6 +264,19 @@ impl MtState {
     ///  * `list-corrupt`     – the walk does not reach the tail
     ///  * `spin-on-unlinked` – the list is well formed; the spinning threads look at nodes that are not in it
     pub fn classify_stuck(&self) -> &'static str {
+        let base = self.classify_structure();
+        // Whatever the list looks like in the end (a reachable mark, a cycle, spinners on nodes outside a well-formed
+        // list): if, earlier in this run, a CAS succeeded on a list word that had been changed and changed back (ABA)
+        // or a removal mark was wiped by a blind store, a thread has acted on a stale claim - the known family. The
+        // two repaired defects (F1 `spin-on-unlinked`, F2 `mark-not-undone`) need neither, so their regressions keep
+        // their own signatures.
+        if base != "released" && (!self.mark_wiped.is_empty() || !self.aba.is_empty()) {
+            return "stale-unlink";
+        }
+        base
+    }
+
+    fn classify_structure(&self) -> &'static str {
         if self.torn_down {
             return "released";
         }
@@ -282,18 +295,11 @@ impl MtState {
                     // a mark whose owner lost its unlink CAS: the repaired defect F2 - unless, earlier in this run, a
                     // removal mark was wiped by a blind store or a CAS succeeded on a word that had been changed and
                     // changed back (a thread acts on a stale claim), which is the known family
-                    _ if !self.mark_wiped.is_empty() || !self.aba.is_empty() => "stale-unlink",
                     _ => "mark-not-undone",
                 };
             }
             next = w as u32;
             n += 1;
-        }
-        // the list is well formed and the spinners walk nodes outside it: after a CAS that succeeded on a word which
-        // had been changed and changed back (nodes dropped out of the list, chains of unlinked nodes that form a
-        // cycle) or after a wiped removal mark this is the known stale-claim family; otherwise the repaired F1
-        if !self.mark_wiped.is_empty() || !self.aba.is_empty() {
-            return "stale-unlink";
         }
         "spin-on-unlinked"
     }
